@@ -115,7 +115,7 @@ func init() {
 	regModel(&ModelGen{Name: "StorageRouting",
 		Params: func(r *Rng) []float64 {
 			dt := []float64{86400, 86400, 3600, 43200}[r.Intn(4)]
-			srHuge = r.Chance(0.08)
+			srHuge = r.Chance(0.15)
 			if srHuge {
 				return []float64{0, r.LogUniform(1e3, 1e6), 1, 1e19, 0, dt}
 			}
